@@ -473,7 +473,9 @@ func c18Concurrent(id int, r *vrand) (*c18Case, error) {
 		}
 	}
 	var wg sync.WaitGroup
-	var werr atomic.Value
+	var werrMu sync.Mutex
+	werr := ""
+	setErr := func(e error) { werrMu.Lock(); werr = e.Error(); werrMu.Unlock() }
 	for w := 0; w < nw; w++ {
 		w := w
 		wg.Add(1)
@@ -483,7 +485,7 @@ func c18Concurrent(id int, r *vrand) (*c18Case, error) {
 				if sz == 0 {
 					// fast path (CAS on the writing flag) or hand-over to the send loop
 					if err := s.hotRestart(uint64(w)<<32|uint64(j), typeHotRestartAck); err != nil {
-						werr.Store(err)
+						setErr(err)
 					}
 					continue
 				}
@@ -496,12 +498,20 @@ func c18Concurrent(id int, r *vrand) (*c18Case, error) {
 				}
 				// header and body as two writes of one event, through the send loop
 				if err := s.waitForSend(ev[:headerSize], ev[headerSize:]); err != nil {
-					werr.Store(err)
+					setErr(err)
 				}
 			}
 		}()
 	}
-	wg.Wait()
+	wdone := make(chan struct{})
+	go func() { wg.Wait(); close(wdone) }()
+	select {
+	case <-wdone:
+	case <-time.After(c18Patience()):
+		rc.mu.Lock()
+		rc.failf("C18: events written never reached the callback|the writers are still blocked inside the write path")
+		rc.mu.Unlock()
+	}
 	select {
 	case <-rc.done:
 	case <-time.After(c18Patience()):
@@ -514,12 +524,15 @@ func c18Concurrent(id int, r *vrand) (*c18Case, error) {
 	if rc.got != rc.want && len(rc.fail) == 0 {
 		rc.failf("C18: number of events delivered differs from the number written|%d vs %d", rc.got, rc.want)
 	}
-	if e := werr.Load(); e != nil {
-		rc.failf("C18: a writer got an error|%v", e)
+	werrMu.Lock()
+	if werr != "" {
+		rc.failf("C18: a writer got an error|%s", werr)
 	}
+	werrMu.Unlock()
 	c.Cbs = rc.Cbs
 	c18AddFail(c, rc.fail)
 	rc.mu.Unlock()
+	atomic.StoreUint32(&s.shutdown, 1) // a late write error must not run Session.Close on this bare session
 	close(s.shutdownCh)
 	ca.close()
 	cb.close()
@@ -541,8 +554,7 @@ func c18Concurrent(id int, r *vrand) (*c18Case, error) {
 var c18Stalls int32
 
 func c18Patience() time.Duration {
-	n := atomic.AddInt32(&c18Stalls, 0)
-	if n >= 2 {
+	if atomic.LoadInt32(&c18Stalls) >= 1 {
 		return 2 * time.Second
 	}
 	return 30 * time.Second
@@ -577,7 +589,7 @@ func TestVerif_C18(t *testing.T) {
 		}
 		out.emit(c)
 		id++
-		if atomic.LoadInt32(&c18Stalls) >= 6 {
+		if atomic.LoadInt32(&c18Stalls) >= 4 {
 			break // the connection is broken; the cases so far say how
 		}
 	}
